@@ -38,6 +38,7 @@ type RootSpec struct {
 	PreemptAt    []string          `json:"preempt_at"`        // restrict lock preemption points to Lock calls made from functions matching one of these substrings
 	PreemptLock  bool              `json:"preempt_at_lock"`   // every mutex acquisition is a preemption point
 	TimersWait   bool              `json:"timers_may_wait"`   // a select whose only ready cases are timers also explores "the timer fires later, after the other runnable goroutines"
+	TickerFires  int               `json:"ticker_fires"`      // time.NewTicker fires up to k times (default 0: never)
 	TimersOff    bool              `json:"timers_never_fire"` // time.NewTimer never fires in this root (default: may fire at any moment)
 	SkipGo       []string          `json:"skip_go"`           // goroutines (by function-name substring) that are not started in this root
 }
@@ -455,6 +456,7 @@ func newMachine(l *Loaded, spec *RootSpec, solverBin string) *Machine {
 	m.skipGo = spec.SkipGo
 	m.timersOff = spec.TimersOff
 	m.timersWait = spec.TimersWait
+	m.tickerFires = spec.TickerFires
 	m.preemptLock = spec.PreemptLock
 	m.preemptBound = spec.PreemptBound
 	m.preemptAt = spec.PreemptAt
@@ -735,6 +737,7 @@ func cmdRun(a []string) int {
 				spec.PreemptLock = r.PreemptLock
 				spec.TimersOff = r.TimersOff
 				spec.TimersWait = r.TimersWait
+				spec.TickerFires = r.TickerFires
 				spec.PreemptBound = r.PreemptBound
 				spec.PreemptAt = r.PreemptAt
 			}
